@@ -28,6 +28,10 @@ type establishLinkHandler struct {
 	valCount int
 	// rigidRef is the non-weak reference
 	rigidRef directive.Reference
+	// acquiring indicates a goroutine is currently acquiring rigidRef
+	acquiring bool
+	// disposed indicates the directive instance was disposed
+	disposed bool
 }
 
 // newEstablishLinkHandler constructs a new establishLinkHandler
@@ -53,7 +57,10 @@ func (e *establishLinkHandler) HandleValueAdded(inst directive.Instance, val dir
 	}
 	e.mtx.Lock()
 	e.valCount++
-	nrr := e.rigidRef == nil
+	nrr := e.rigidRef == nil && !e.acquiring && !e.disposed
+	if nrr {
+		e.acquiring = true
+	}
 	e.mtx.Unlock()
 
 	if nrr {
@@ -62,9 +69,21 @@ func (e *establishLinkHandler) HandleValueAdded(inst directive.Instance, val dir
 			WithField("local-peer", vl.GetLocalPeer().String()).
 			Debug("starting peer hold-open tracking")
 		go func() {
+			ref := e.di.AddReference(nil, false)
+
+			// The values may have been removed (or the instance disposed)
+			// while the reference was being acquired: decide under the lock
+			// if it is still wanted, otherwise it would never be released.
 			e.mtx.Lock()
-			e.rigidRef = e.di.AddReference(nil, false)
+			e.acquiring = false
+			keep := e.valCount != 0 && !e.disposed
+			if keep {
+				e.rigidRef = ref
+			}
 			e.mtx.Unlock()
+			if !keep {
+				ref.Release()
+			}
 		}()
 	}
 }
@@ -86,6 +105,7 @@ func (e *establishLinkHandler) HandleValueRemoved(inst directive.Instance, val d
 // This will occur if Close() is called on the directive instance.
 func (e *establishLinkHandler) HandleInstanceDisposed(inst directive.Instance) {
 	e.mtx.Lock()
+	e.disposed = true
 
 	eref := e.ref
 	if eref == nil {
